@@ -546,9 +546,14 @@ def _run_diffusion(case, R):
     it = precip.solver_type(case['iterator'])
     # the model's own first step size (probe object, discarded) fixes the durations
     probe = _build_diffusion(case)
-    probe.setup()
-    t, x = probe.getCurrentX()
-    dt0 = float(probe.getDt(probe.getdXdt(t, x)))
+    try:
+        probe.setup()
+        t, x = probe.getCurrentX()
+        dt0 = float(probe.getDt(probe.getdXdt(t, x)))
+    except Exception as e:             # the library cannot evaluate this configuration at all: not this property's subject
+        R.observe('rejected_config')
+        R.info['rejected'] = repr(e)[:200]
+        return
     if not np.isfinite(dt0) or dt0 <= 0:
         R.observe('rejected_config')
         return
